@@ -26,6 +26,8 @@ type G struct {
 	Bias map[string]int
 	// proofIntent is the identifier the DID proof under construction is made for.
 	proofIntent string
+	// wellFormedOnly suppresses deliberately malformed parts in generated documents.
+	wellFormedOnly bool
 	// forceEmptyDocProof makes the next proof cover the id-less document.
 	forceEmptyDocProof bool
 	// groupProposer is set by signersFor when the messages must travel as a group proposal
